@@ -22,7 +22,7 @@ OExps    == T({"none", "past", "f1"}, {"none", "past", "f1", "f2"})
 OMetas   == T({<<>>, <<MA>>, <<MA, MB>>}, {<<>>, <<MA>>, <<MAy>>, <<MA, MB>>})
 EMetas   == {<<>>, <<MA>>, <<MA, MB>>}
 OOrigs   == T({<<>>, <<"o1">>}, {<<>>, <<"o1">>, <<"o1", "o2">>})
-OUas     == T({<<>>, <<"p3">>}, {<<>>, <<"p3">>, <<"p2", "p3">>})
+OUas     == {<<>>, <<"p3">>}
 OUpds    == T({NoCid, "c2"}, {NoCid, "c2", "c3"})
 
 Opt(n, m, f, e, md, og, ua, up) ==
